@@ -160,7 +160,9 @@ void profile_twin(RunCtx& ctx)
             int f = rng.chance(0.5) ? TF_CHAN_ARITH : TF_UNDECLARED;
             size_t ti = f == TF_CHAN_ARITH ? toks.size() - 1 : rng.below((uint32_t)toks.size());
             auto fr = apply_token_fault(text, toks, ti, f, b.kind, "ch0");
-            if (fr.applied) {
+            // only semantic errors: a syntax error is contained in its block by the XML reader but is recovered at
+            // statement boundaries in a whole XTA file, so the two formats legitimately report different follow-ups
+            if (fr.applied && !fr.type_position) {
                 set_block_text(m, b, fr.text);
                 seeded = std::string{token_fault_name(f)} + " in " + b.kind_name();
                 ctx.count("twin-models-with-seeded-error");
